@@ -98,7 +98,7 @@ func rulesC16(c *Ctx) {
 		for _, call := range calls {
 			st := p.StateAt(fn, call)
 			ok := p.Holds(st, p.ResultNilAtom(true, func(cl *ast.CallExpr, a Atom) bool {
-				return len(cl.Args) == 4 && len(call.Args) == 1 && p.Same(a.term(cl.Args[0]), T(call.Args[0], st)) && p.isConstBool(cl.Args[3], true)
+				return len(cl.Args) >= 4 && len(call.Args) >= 1 && p.Same(a.term(cl.Args[0]), T(call.Args[0], st)) && p.isConstBool(cl.Args[3], true)
 			}, "scheduler.newPartitionContext"))
 			c.Check("C16.b", "update only after the dry run of the same partition config", call, ok, "updatePartitionDetails(p) reached without newPartitionContext(p, _, _, true) == nil; facts: %v", p.FactStrings(st))
 		}
@@ -177,7 +177,7 @@ func rulesC16(c *Ctx) {
 		for _, call := range p.callsIn(root, "locking.RWMutex.Lock", "github.com/sasha-s/go-deadlock.RWMutex.Lock") {
 			st := p.StateAt(root, call)
 			upd := p.DoneCall(st, func(cl *ast.CallExpr) bool {
-				return len(cl.Args) == 1 && strings.HasSuffix(p.Src(cl.Args[0]), ".PlacementRules")
+				return len(cl.Args) >= 1 && strings.HasSuffix(p.Src(cl.Args[0]), ".PlacementRules")
 			}, "placement.AppPlacementManager.UpdateRules")
 			c.Check("C16.b", "placement rules rebuilt on every reload", call, upd != nil, "the partition lock is taken without UpdateRules(conf.PlacementRules) having run on every path: a reload to an empty rule list keeps the old rules")
 		}
@@ -215,7 +215,7 @@ func rulesC16(c *Ctx) {
 		}
 		rec := p.callsIn(fn, pcT+".updateQueues")
 		for _, call := range rec {
-			okRec := len(call.Args) == 2 && strings.HasSuffix(p.Src(call.Args[0]), ".Queues")
+			okRec := len(call.Args) >= 2 && strings.HasSuffix(p.Src(call.Args[0]), ".Queues")
 			var loop *ast.RangeStmt
 			for par := p.Parent(call); par != nil; par = p.Parent(par) {
 				if rs, ok := par.(*ast.RangeStmt); ok {
@@ -274,7 +274,7 @@ func rulesC16(c *Ctx) {
 				return p.Holds(st, p.CmpAtom(func(op token.Token, x, y Term) bool {
 					v, isC := p.ConstInt(y.E)
 					lc, isCall := unparen(x.E).(*ast.CallExpr)
-					if !isC || v != 0 || !isCall || len(lc.Args) != 1 || (op != token.LEQ && op != token.EQL) {
+					if !isC || v != 0 || !isCall || len(lc.Args) < 1 || (op != token.LEQ && op != token.EQL) {
 						return false
 					}
 					return p.recvField(fn, lc.Args[0], field)
@@ -327,7 +327,7 @@ func rulesC16(c *Ctx) {
 		re := false
 		for _, call := range p.callsIn(fn, "objects.Queue.handleQueueEvent") {
 			st := p.StateAt(fn, call)
-			if len(call.Args) == 1 && strings.HasSuffix(p.Src(call.Args[0]), "Start") && p.Holds(st, p.CallAtom(false, nil, "objects.Queue.IsRunning")) {
+			if len(call.Args) >= 1 && strings.HasSuffix(p.Src(call.Args[0]), "Start") && p.Holds(st, p.CallAtom(false, nil, "objects.Queue.IsRunning")) {
 				re = true
 			}
 		}
